@@ -5,7 +5,7 @@ PROP = dict(
     corr=["Model/FsmCorr.vo", "Model/CrashCorr.vo", "Model/C06Corr.vo"],
     design_ref="DESIGN.md §6 C06",
     technique="Coq: reflective check of the generated taker tables (the states reachable from the success edge of every paying state form a closed zone that only claims with the preimage), proved sound for arbitrary tables; engine rule for the zone, own induction for the paying step; lifted to all histories with crashes; refutation witnesses for the known findings; step-level vm_compute correspondence against the real SwapService incl. simulated process crashes; monitor on observed traces; plus, on the real lnd adapter: RebalancePayment over scripted payment-update streams (psh paystream, Model/C06PayStream.v; theorems c06_lnd_adapter_* for every stream: paid only after SUCCEEDED, failed only after FAILED, no verdict while in flight; observed each run: the adapter sets no deadline of its own on the stream)",
-    level_text="Machine-checked for the generated swap-out-sender and swap-in-receiver tables, every history, environment and crash point: once RebalancePayment has returned the preimage in a step that runs to completion with its store writes succeeding, the taker never sends coop_close (nor any other message) again, never leaves the claim zone {ClaimSwap, ClaimedPreimage} and every later effect is a store write in that zone or a preimage-spend attempt; every recovery in ClaimSwap attempts the preimage claim again. The full statement (also for payments whose outcome was not durably recorded, or that are still in flight when the call errs) is refuted in Coq and on the real code: known findings D3, D4; D2 is repaired.",
+    level_text="Machine-checked for the generated swap-out-sender and swap-in-receiver tables, every history, environment and crash point: once RebalancePayment has returned the preimage in a step that runs to completion with its store writes succeeding, the taker never sends coop_close (nor any other message) again, never leaves the claim zone {ClaimSwap, ClaimedPreimage} and every later effect is a store write in that zone or a preimage-spend attempt; every recovery in ClaimSwap attempts the preimage claim again. The full statement (also for payments whose outcome was not durably recorded, or that are still in flight when the call errs) is refuted in Coq and on the real code: known findings D3, D4; D2 is repaired. lnd adapter: for every stream of payment updates the model of sendPaymentV2 reports 'paid' only after SUCCEEDED, 'failed' only after FAILED, each preceded by non-final updates only, and reaches no verdict while all updates are non-final (tied to the real lnd.Client.RebalancePayment by scripted streams on every run).",
     level_note="Trusted: Coq kernel; hand-written Gallina model of swap/actions.go, swap/fsm.go (tied by step-level correspondence incl. crash steps: effect prefix + stored record); fakes for Lightning/wallet/watcher/store; the label 'HTLC still in flight' of a failed attempt is the environment's (the Lightning interface returns only an error). Legacy (protocol 6) recovery through RecoverClaimPayment is covered by the monitor only, not by the theorem.",
     assumptions=[
         "a crash happens between two effects (mutating service calls / store writes); a call that was issued has its effect",
